@@ -199,7 +199,7 @@ func c04ResumeRegistersOffset(c *core.Ctx) {
 func c04ServerOffsets(c *core.Ctx) {
 	var chunkRange *ssa.Function
 	for _, fn := range c.P.ModuleFunctions("ociserver") {
-		if fn.Name() == "chunkRange" {
+		if fnName(fn) == "chunkRange" {
 			chunkRange = fn
 		}
 	}
